@@ -92,6 +92,7 @@ func (p *defaultPolicy[V]) Push(keys []uint64) bool {
 		p.metrics.add(keepGets, keys[0], uint64(len(keys)))
 		return true
 	default:
+		verifEvent(verifEvGetsDropped, keys[0], int64(len(keys)), 0)
 		p.metrics.add(dropGets, keys[0], uint64(len(keys)))
 		return false
 	}
